@@ -2,7 +2,8 @@ import McpModel.Generated.SessionsGen
 /-!
 E7 — model of the session layer of `mcp.StreamableHTTPHandler` (mcp/streamable.go:47-125 sessionInfo,
 refs, idle timer; 341-460 ServeHTTP, stateless path; 554-757 serveStateful*, lookupSession, creation
-path, onClose removal, DELETE).  Serves C11.
+path, onClose removal, DELETE).  Serves C11, and the session half of C05 (closing terminates and leaves
+no timer behind).
 
 A labelled transition system.  One label = one atomic section of the Go code:
 
@@ -11,6 +12,13 @@ A labelled transition system.  One label = one atomic section of the Go code:
                 the hand-over of the message to the session's transport; without a session id:
                 `GetSessionID` + `Server.Connect` — the new server session exists and is listed by
                 `Server.Sessions()`, but is not yet in `h.sessions`.
+* `postHead`    the request HEADERS of a POST with a session id have arrived: `lookupSession` + `startPOST`; the
+                session's transport now blocks reading the body.  The POST is in progress from here (`posts`, and the
+                ghost `upl` = POSTs in progress whose body is still on its way); no handler is in flight for it, so a
+                close of the session can complete while it lasts.
+* `postBody`    the body of such a POST is complete: the message is handed to the server session — unless its `Close`
+                has begun (then the connection answers itself; on a closed session nothing is delivered at all).
+                `postBegin` with a session id is `postHead` and `postBody` back to back (a body that arrives at once).
 * `publish`     the rest of the creation path: `time.AfterFunc`, the publication critical section
                 under `h.mu` (F20: it must not publish a session whose `onClose` has already run),
                 `startPOST`, hand-over of the creating POST's message to the transport.
